@@ -573,7 +573,13 @@ impl Wall {
         };
 
         // Valor teniendo en cuenta el efecto del aislamiento perimetral en régimen estacionario B.4
-        let U = fround2(U_bf + 2.0 * psi_gnd_ext / char_dim);
+        // Con dimensión característica nula (solera de superficie casi nula o espacio sin solera) no hay término de borde
+        let U_edge = if char_dim > 0.0 {
+            2.0 * psi_gnd_ext / char_dim
+        } else {
+            0.0
+        };
+        let U = fround2(U_bf + U_edge);
         debug!(
             "{} (suelo de sótano) U={:.2} (z={:.2}, d_t={:.2}, B'={:.2}, U_bf={:.2}, psi_ge = {:.3})",
             self.name,
